@@ -1630,6 +1630,20 @@ fn refv_descs(rng: &mut Rng, count: usize, max_log_len: u32) -> Vec<AirDesc> {
     v.push(d.clone());
     d.exemptions = 3;
     v.push(d);
+    // periodic columns whose interpolants have vanishing leading coefficients: a cycle of 4 with period-2 values,
+    // a constant cycle of 2 (the verifier derives the power of x from the NUMBER of coefficients; 16 rows: 16/3 != 16/4)
+    let e = Expr::add(Expr::mul(Expr::Per(0), Expr::Cur(0)), Expr::Per(1));
+    v.push(AirDesc {
+        width: 1,
+        trace_len: 16,
+        exemptions: 1,
+        tail_junk: false,
+        periodic: vec![vec![3, 5, 3, 5], vec![7, 7]],
+        cols: vec![ColGen::Step { init: None, expr: e.clone() }],
+        constraints: vec![Constraint { degree: Degree { base: 1, cycles: vec![4] }, expr: Expr::sub(Expr::Nxt(0), e) }],
+        assertions: vec![AssertDesc::single(0, 0), AssertDesc::single(0, 15)],
+        aux: None,
+    });
     // degree 5: the AIR constructor refuses blowup factors below 4 (a mutated blowup byte makes `verify` panic)
     let e = Expr::add(Expr::pow(Expr::Cur(0), 5), Expr::Const(5));
     v.push(AirDesc {
@@ -1676,11 +1690,24 @@ fn refv_lines(rng: &mut Rng, tier: Tier) -> Vec<String> {
             _ => (1..=9u8).collect(),
         };
         let c = Cfg { field: FieldId::F64, hash: HashId::Rp64_256, opts: OptSpec::new(q, b, g, ext, f, r), seed: 7000 + k as u64, desc: Arc::new(d.clone()), meta };
+        let head = format!("refv {} {} {} {} {}", c.field.name(), c.hash.name(), c.opts.to_text(), c.seed, c.desc.to_line());
         let base = match make_base(&c) {
             Ok(x) => x,
-            Err(_) => continue,
+            Err(_) => {
+                // the honest proof cannot be built or is not accepted: the `fields` op reports what is wrong with
+                // the configuration (oracle site c03.harness.*), and the honest bytes still go to both verifiers
+                out.push(format!("fields {}", cfg_text(&c)));
+                let trace = gen_trace(&c.desc, c.field, c.seed);
+                let pubs = pub_inputs(&c.desc, c.field, &trace);
+                let desc = c.desc.clone();
+                if let Ok(o) = guarded(|| prove_adv(&desc, &trace, c.field, &c.opts, c.hash, None, &c.meta, None)) {
+                    if let Ok(p) = o.proof {
+                        out.push(format!("{} os:{} {} honest {}", head, c.opts.to_text(), pubs_text(&pubs), hex(&p.to_bytes())));
+                    }
+                }
+                continue;
+            },
         };
-        let head = format!("refv {} {} {} {} {}", c.field.name(), c.hash.name(), c.opts.to_text(), c.seed, c.desc.to_line());
         let os = format!("os:{}", c.opts.to_text());
         let pubs = pubs_text(&base.pubs);
         let hx = hex(&base.bytes);
